@@ -582,10 +582,61 @@ fn main() {
             }
         }
         res.cov("absolute_form_requests", abs_n);
+        // family 7: queries that merely *contain* dots / escapes resembling a traversal (the path does not), and request heads
+        // of 8 KiB ... 100 KiB (a large bearer token or cookie): relayed like anything else, byte for byte
+        let mut odd_n = 0u64;
+        {
+            let big = |n: usize| -> Vec<u8> { (0..n).map(|i| b"abcdefghijklmnopqrstuvwxyzABCDEFGHIJKLMNOPQRSTUVWXYZ0123456789-._~+/="[i % 69]).collect() };
+            let mut shapes: Vec<(String, String, Vec<(String, Vec<u8>)>)> = Vec::new();
+            for q in ["range=1.0..2.0", "name=Foo..Bar", "p=%2e%2e", "p=%2E%2E%2Fx", "next=../up", "v=...", "a=.&b=.", "x=1.."] {
+                shapes.push((format!("query-with-dots:{q}"), format!("/odd/q?{q}"), vec![]));
+            }
+            for n in [8 * 1024usize, 12 * 1024, 24 * 1024, 64 * 1024, 100 * 1024] {
+                shapes.push((format!("header-of-{n}-bytes"), "/odd/h".to_string(), vec![("Authorization".to_string(), [b"Bearer ".to_vec(), big(n)].concat())]));
+            }
+            shapes.push(("forty-headers-of-1-KiB".into(), "/odd/h40".into(), (0..40).map(|i| (format!("X-Big-{i}"), big(1024))).collect()));
+            for (label, pq, hdrs) in shapes {
+                for method in ["GET", "POST"] {
+                    id += 1;
+                    odd_n += 1;
+                    sport = if sport >= 39000 { 36000 } else { sport + 1 };
+                    let sep = if pq.contains('?') { "&" } else { "?" };
+                    let target = format!("{pq}{sep}id={id}&st=200&len=3&fr=cl");
+                    let mut hv: Vec<(&str, &[u8])> = vec![("Host", b"h")];
+                    for (n, v) in &hdrs {
+                        hv.push((n.as_str(), v.as_slice()));
+                    }
+                    let raw = build_request(method, &target, &hv, if method == "POST" { Some(b"req-body") } else { None }, None);
+                    let cur = w.hosts.ws.cursor();
+                    let resp = match w.connect(Some(sport), Some(&rec)) {
+                        Ok(mut c) => {
+                            let r = c.send(&raw).map_err(|e| e.to_string()).and_then(|_| c.read_response(false, Duration::from_secs(10)));
+                            c.close();
+                            r
+                        }
+                        Err(e) => Err(format!("connect: {e}")),
+                    };
+                    evals += 1;
+                    let case = json!({"family": "unusual-but-legal-request", "shape": label, "method": method, "target": target});
+                    nontrivial.insert(case.to_string());
+                    let got = w.hosts.ws.requests_since(cur);
+                    match got.first() {
+                        None => res.violation("request-not-relayed", &format!("{label}: nothing reached the host; client got {:?}", resp.as_ref().map(|r| r.status()).map_err(|e| e.clone())), case),
+                        Some((_, m)) => {
+                            let hdr_ok = hdrs.iter().all(|(n, v)| m.headers.iter().any(|(hn, hv)| hn.eq_ignore_ascii_case(n) && hv == v));
+                            if m.method() != method || m.target() != target || !hdr_ok || resp.as_ref().map(|r| r.status()).ok() != Some(200) {
+                                res.violation("request:method-target-or-header-changed", &format!("{label}: client sent {method} {target}; host saw {} {} (large headers intact: {hdr_ok}); client got {:?}", m.method(), m.target(), resp.as_ref().map(|r| r.status()).map_err(|e| e.clone())), case);
+                            }
+                        }
+                    }
+                }
+            }
+        }
+        res.cov("unusual_but_legal_requests", odd_n);
         res.cov("host_dies_mid_answer_requests", aborted_n);
         res.cov("exempt_upload_requests", exempt_n);
         res.cov("pipelines", pipelines);
-        res.cov("rule", format!("one request per fresh attributed connection for the product of 5 methods x {} client header sets (repeated names in three spellings, empty value, punctuation, names resembling the proxy-owned ones, 14 well-known request headers) x {} request body framings (0..102400 bytes, content-length / chunks of 1, 7, 4096 / single chunk) x {} host answers (status 200/204/404/500, body 0/1/70000 bytes covering all byte values, content-length or chunked, TCP segment boundary at 0/1/2/4095/4096/4097), with a key latched and (slice) without; plus {} pipelines of 1-3 back-to-back requests on 1 and 2 concurrent keep-alive connections; plus a SAMPLED family of 300 (1200) back-to-back request pairs on kept-alive connections while the agent's runtime workers are held 0.7 ms at a time; plus three uploads that take 10.8 s in total (4 pieces 3.6 s apart; exempt and signed route, content-length and chunked); plus 30 absolute-form request targets (3 authorities x 5 path/query shapes x 2 methods): path and query unchanged at the host; plus answers cut off by the death of the host at 10 offsets (inside the head, 0/1/3/4000/8197 bytes into the body, 8/5/3/1 bytes before the end) x content-length/chunked x 2 sizes, which must not reach the client as a complete message; plus the two signature-exempt uploads with 9 body framings (0 bytes .. 1 MiB, content-length and chunked) x 2 header sets; the host's answer is a function of the request target and echoes the request id", hsets, req_bodies.len(), resps.len(), pipelines));
+        res.cov("rule", format!("one request per fresh attributed connection for the product of 5 methods x {} client header sets (repeated names in three spellings, empty value, punctuation, names resembling the proxy-owned ones, 14 well-known request headers) x {} request body framings (0..102400 bytes, content-length / chunks of 1, 7, 4096 / single chunk) x {} host answers (status 200/204/404/500, body 0/1/70000 bytes covering all byte values, content-length or chunked, TCP segment boundary at 0/1/2/4095/4096/4097), with a key latched and (slice) without; plus {} pipelines of 1-3 back-to-back requests on 1 and 2 concurrent keep-alive connections; plus a SAMPLED family of 300 (1200) back-to-back request pairs on kept-alive connections while the agent's runtime workers are held 0.7 ms at a time; plus three uploads that take 10.8 s in total (4 pieces 3.6 s apart; exempt and signed route, content-length and chunked); plus 30 absolute-form request targets (3 authorities x 5 path/query shapes x 2 methods): path and query unchanged at the host; plus 28 requests whose query merely contains dots / escaped dots or whose head is 8 KiB .. 100 KiB large; plus answers cut off by the death of the host at 10 offsets (inside the head, 0/1/3/4000/8197 bytes into the body, 8/5/3/1 bytes before the end) x content-length/chunked x 2 sizes, which must not reach the client as a complete message; plus the two signature-exempt uploads with 9 body framings (0 bytes .. 1 MiB, content-length and chunked) x 2 header sets; the host's answer is a function of the request target and echoes the request id", hsets, req_bodies.len(), resps.len(), pipelines));
     } else {
         // ---------------- C15 ----------------
         w.set_key(Some(K1));
